@@ -276,6 +276,20 @@ func runCrashWorkload(base string, w c05workload, rep *hx.Report, cf *hx.CasesFi
 				}
 			}
 		}
+		// the state this run starts from: which metadata files are there (byte for byte) and
+		// whether the data file each of them describes is there at its full length
+		beforeMeta := map[string][]byte{}
+		intact := map[string]bool{}
+		for _, sv := range before {
+			if b, err := os.ReadFile(filepath.Join(out, ".thruflux_resumedata", sv.path)); err == nil {
+				beforeMeta[sv.path] = b
+			}
+			if rel, ok := idToRel[sv.fileID]; ok {
+				if st, err := os.Stat(filepath.Join(out, filepath.FromSlash(rel))); err == nil && st.Size() == sv.fileSize {
+					intact[rel] = true
+				}
+			}
+		}
 		cr := &crashRun{outDir: out, snapRoot: filepath.Join(dir, fmt.Sprintf("snaps_%d_%d", p.depth, resumed)), rng: r.Fork(uint64(resumed)), flushProb: 35, maxSnaps: 40, active: true}
 		if w.streams > 1 && cr.rng.Intn(2) == 0 {
 			cr.straggle, cr.victim = true, uint32(cr.rng.Intn(3))
@@ -328,8 +342,8 @@ func runCrashWorkload(base string, w c05workload, rep *hx.Report, cf *hx.CasesFi
 		// advertised = what the metadata marked (receiver counts the set bits it loaded)
 		for _, sv := range before {
 			rel, ok := idToRel[sv.fileID]
-			if !ok || tampered[rel] {
-				continue
+			if !ok || tampered[rel] || !intact[rel] {
+				continue // metadata of a data file that is gone or cut (also inherited from an earlier kill point) is rightly not used
 			}
 			want := uint32(0)
 			for _, b := range sv.bits {
@@ -358,7 +372,7 @@ func runCrashWorkload(base string, w c05workload, rep *hx.Report, cf *hx.CasesFi
 		if !noResume && res.sendDone && res.recvDone && res.sendErr == nil && res.recvErr == nil {
 			for _, sv := range before {
 				rel, ok := idToRel[sv.fileID]
-				if !ok || tampered[rel] || sv.fileSize != int64(len(byRel[rel])) || int(sv.chunkSize) != csRun {
+				if !ok || tampered[rel] || !intact[rel] || sv.fileSize != int64(len(byRel[rel])) || int(sv.chunkSize) != csRun {
 					continue
 				}
 				again := []uint32{}
@@ -412,12 +426,17 @@ func runCrashWorkload(base string, w c05workload, rep *hx.Report, cf *hx.CasesFi
 				}
 				srcData := byRel[rel]
 				got, _ := os.ReadFile(filepath.Join(sd, filepath.FromSlash(rel)))
-				if tampered[rel] && int64(len(got)) != sv.fileSize {
-					// the data file was removed / cut by the user and the receiver has not reached this
-					// file yet: the stale metadata is not the receiver's claim (and is discarded when the
-					// file begins, or by the next resume: C06); once the file is there again at its full
-					// length whatever metadata is found must be honest
-					continue
+				if int64(len(got)) != sv.fileSize {
+					// the data file is gone or cut (by the user before this run, or inherited from a kill
+					// point of such a run) and the receiver has not reached this file yet: if the metadata
+					// file is still, byte for byte, the one found before the run, it is not this receiver's
+					// claim (it is discarded when the file begins, or by the next resume: C06). Metadata the
+					// receiver has written in this run, and any metadata beside a full-length data file,
+					// must be honest.
+					if now, err := os.ReadFile(filepath.Join(sd, ".thruflux_resumedata", sv.path)); err == nil && bytes.Equal(now, beforeMeta[sv.path]) && beforeMeta[sv.path] != nil {
+						rep.Count("snapshot-with-inherited-stale-metadata")
+						continue
+					}
 				}
 				marked := 0
 				for i, b := range sv.bits {
